@@ -75,6 +75,21 @@ def main():
                         break
             except Exception as e:  # noqa
                 order = {"what": "permuted accessor calls raised", "exc": repr(e)[:300]}
+        if "EXC" in d:
+            # a failing script: the same exception class from every accessor, in a permuted order, on repeated calls of ONE runner
+            try:
+                lr = observe.runner_of(c["sql"], c.get("dialect", "ansi"), metadata=c.get("metadata"))
+                for name in perm_of(req.get("perm", 0) + i)[:8]:
+                    try:
+                        get(lr, name)
+                        got = "no exception"
+                    except Exception as e:  # noqa
+                        got = observe.exc_name(e)
+                    if got != d["EXC"]:
+                        order = {"accessor": name, "first_call_raised": d["EXC"], "permuted_call": got}
+                        break
+            except Exception as e:  # noqa
+                order = {"what": "constructing the runner raised", "exc": repr(e)[:200]}
         out.append({"dump": d, "order": order})
     json.dump(out, sys.stdout)
 
